@@ -10,5 +10,7 @@ module Nat :
 
   val compare : nat -> nat -> comparison
 
+  val max : nat -> nat -> nat
+
   val min : nat -> nat -> nat
  end
